@@ -184,6 +184,10 @@ Definition model_tx (c : case) (r_on r_off : option reward_fn) : bool :=
   (* the "off" Evm runs the transaction with the configuration flag set when [c_cfg_disable] *)
   let e_on := t_env t in
   let e_off := with_flag (t_env t) (c_cfg_disable c) in
+  (* a deposit transaction that halts under the Optimism `end` handle (REGOLITH+) keeps only the
+     caller's nonce bump and mint: whatever the reward handle credited is dropped with the rest of
+     the state, so both Evms return the same state even when only one of them has a reward handle *)
+  if p_deposit (t_env t) && (res_kind (t_res_on t) =? 2) && (res_kind (t_res_off t) =? 2) && jstate_eqb keys s_on s_off then true else
   if p_reward_disabled e_off || is_base r_off
   then jstate_eqb keys (reward_step custom_noop db e_on used r_on (reward_step custom_noop db e_off used r_off s_off)) s_on
   else if is_base r_on then jstate_eqb keys (reward_step custom_noop db e_off used r_off s_on) s_off
